@@ -107,7 +107,11 @@ macro_rules! field_impl {
             }
 
             pub fn set_bit(&mut self, bit: usize, to: bool) {
-                self.0.set_bit(bit, to);
+                // operate on the canonical value, not on the Montgomery limbs
+                let mut a = U256::from(*self);
+                a.set_bit(bit, to);
+                // `a` may now be >= modulus; new_mul_factor reduces
+                *self = Self::new_mul_factor(a);
             }
 
             #[inline]
